@@ -30,7 +30,7 @@ CFG = {
 }
 # weights of the motif programs for the random histories: motif 8 assigns a value (uncached cells refuse that),
 # the last extended motif switches flags itself
-MOTIF_WEIGHTS = [1, 1, 4, 3, 1, 2, 1, 1, 0, 1, 1] + [1] * (len(S.MOTIFS) - 11) + [1, 1, 1, 1, 3, 0, 3]
+MOTIF_WEIGHTS = [1, 1, 4, 3, 1, 2, 1, 1, 0, 1, 1] + [1] * (len(S.MOTIFS) - 11) + [1, 1, 1, 1, 3, 0]
 RULE = ("one history of 14-28 edits/evaluations replayed under k assignments of the cached flag to the cells names "
         "{f,g,h,k} (flag forced after each creation and formula change; `flip` ops switch a name's flag at that point of the history, "
         "half of them followed by an edit of a reference of a space that has such a cells; after every motif program: every cells name switched "
